@@ -269,7 +269,7 @@ func roleFunc(u *Universe, path, role string) *ssa.Function {
 							for _, i2 := range b2.Instrs {
 								if c2, ok := i2.(*ssa.Call); ok && c2.Call.IsInvoke() && c2.Call.Method.Name() == "Seek" && len(c2.Call.Args) == 2 && constIs(c2.Call.Args[1], 2) {
 									if _, isK := c2.Call.Args[0].(*ssa.Const); isK {
-										out = sc
+										out = g // the function that itself seeks to the tail
 									}
 								}
 							}
